@@ -7,7 +7,7 @@ ROOT = os.path.dirname(os.path.dirname(os.path.abspath(__file__)))
 TECH = ("bounded model checking of the compiled Rust code: Kani 0.68 -> CBMC 6.11 -> SAT (cadical); symbolic inputs "
         "via kani::any(), unwinding assertions on, counterexamples replayed natively with cargo kani playback")
 
-TECH2 = TECH + "; for C13 additionally path-forking symbolic execution of rustc's MIR with z3 (mirsym)"
+TECH2 = TECH + "; for C13 and C02 additionally path-forking symbolic execution of rustc's MIR with z3 (mirsym)"
 
 CLAIMED = {
     # id: (level text, level_note, design_ref)
@@ -31,10 +31,17 @@ CLAIMED = {
         "punctuation; lex_punctuation agrees with an independent table for every Unicode scalar and quotes start unpaired; "
         "lex_hex_number's value equals the value its text denotes; lex_long_decade matches exactly [12]dd0s not followed by a letter/"
         "digit; URL/hostname tokens contain no blanks; Document::match_quotes pairs quotes mutually, in range and in order for every "
-        "quote/non-quote sequence of up to 4 (5) tokens; PlainEnglish::parse tiles every ASCII text of <= 2 chars (thorough).",
-        "Covers lexing and quote pairing only. Outside the claim: the condensing passes of Document::parse (token surgery; memory), "
-        "Markdown/HTML/Typst/comment front-ends, Mask::parse, CollapseIdentifiers, IsolateEnglish, decimal number values. The "
-        "property's own example ('See e.g.' loses its final period) is therefore not detectable here.",
+        "quote/non-quote sequence of up to 4 (5) tokens; PlainEnglish::parse tiles every ASCII text of <= 2 chars (thorough). "
+        "mirsym (MIR symbolic execution, z3): each of condense_spaces, condense_newlines, newlines_to_breaks, "
+        "condense_dotted_initialisms, condense_number_suffixes (+ condense_indices) and match_quotes, executed from rustc's MIR on "
+        "every document of 1..=4 (5) tokens tiling a text (symbolic boundaries, kinds forked from the pass's menu, symbolic "
+        "characters), leaves the tokens an exact tiling of the text - no character lost or duplicated - and a number token that "
+        "received an ordinal suffix covers exactly its digits plus the two suffix letters; no MIR assert (overflow/bounds) can fail.",
+        "Outside the claim: condense_contractions / condense_latin / condense_ellipsis (thread-local dyn Pattern objects), the ORDER "
+        "of passes inside Document::parse, Markdown/HTML/Typst/comment front-ends, Mask::parse, CollapseIdentifiers, IsolateEnglish, "
+        "decimal number values. mirsym assumes lexer shape invariants (one-char punctuation, Space/Newline counts match widths, no "
+        "adjacent words/numbers) and trusts hand-written contracts for std calls (models.py); counterexamples are replayed through "
+        "the public API (Document::new_plain_english_curated) before being reported.",
         "DESIGN.md section 4, C02"),
     "C03": (
         "The edit primitive is decided exhaustively within bounds: Suggestion::apply equals a reference splice for Remove (texts <= 4 "
@@ -132,7 +139,7 @@ def main():
                 "engine": "kani-cbmc",
                 "level_claimed": {"category": "model_checking", "text": text, "design_ref": ref},
                 "level_note": note,
-                "technique": TECH2 if pid == "C13" else TECH,
+                "technique": TECH2 if pid in ("C13", "C02") else TECH,
             })
         elif pid not in na:
             na[pid] = "check not built yet (work in progress; see DESIGN.md)"
@@ -156,7 +163,7 @@ def main():
                               "classifies results, replays counterexamples natively and writes evidence",
         }, {
             "name": "mirsym", "path": "/verif/mirsym",
-            "serves_properties": ["C13"],
+            "serves_properties": ["C02", "C13"],
             "kind_free_text": "path-forking symbolic executor for rustc's textual MIR (dumped from /repo on every run with the "
                               "nightly toolchain), z3 4.x via python3-vt decides branch feasibility and post-conditions; std calls "
                               "are dispatched to hand-written contracts (models.py)",
